@@ -108,6 +108,9 @@ def build_grid(pp, spec):
         rs = np.random.RandomState(spec["pert_seed"])
         h = min(p / k for p, k in zip(spec["phys"], spec["n"]))
         g.nodes[: g.dim] += 0.15 * h * (2 * rs.rand(g.dim, g.num_nodes) - 1)
+    if spec.get("tilt") is not None:
+        # a 2-D grid embedded in 3-D: rotated out of the xy-plane (angle, axis)
+        g.nodes = pp.map_geometry.rotation_matrix(spec["tilt"][0], np.array(spec["tilt"][1], dtype=float)) @ g.nodes
     with warnings.catch_warnings():
         warnings.simplefilter("ignore")
         g.compute_geometry()
@@ -142,7 +145,10 @@ def make_params(pp, method, g, seed, layout, scale_cells=None, flip_faces=None):
             K = pp.SecondOrderTensor(kxx * fac, kyy=kyy * fac, kzz=kzz * fac, kxy=kxy * fac, kxz=kxz * fac, kyz=kyz * fac)
         else:
             K = pp.SecondOrderTensor(kxx * fac, kyy=kyy * fac, kzz=None, kxy=kxy * fac)
-        return {"bc": pp.BoundaryCondition(g, bf, cond_list), "second_order_tensor": K}
+        out = {"bc": pp.BoundaryCondition(g, bf, cond_list), "second_order_tensor": K}
+        if g.dim == 2 and np.abs(g.nodes[2]).max() > 0:
+            out["ambient_dimension"] = 3  # embedded grid: the vector source lives in the ambient coordinates
+        return out
     mu, lam = 0.5 + rs.rand(nc), 0.5 + rs.rand(nc)
     p = {"bc": pp.BoundaryConditionVectorial(g, bf, cond_list), "fourth_order_tensor": pp.FourthOrderTensor(mu * fac, lam / fac)}
     if method == "biot":
@@ -468,12 +474,17 @@ def grid_specs(quick):
     # regular simplex grids on which 5-6 (2-D) / 4 (3-D) parts put some faces into three subproblems; split relation only
     out += [{"kind": "tri", "n": [4, 2], "phys": [4.0, 2.0], "pert_seed": None, "only": "split", "splits": (5, 6)},
             {"kind": "tet", "n": [2, 2, 1], "phys": [2.0, 2.0, 1.0], "pert_seed": None, "only": "split", "splits": (4,)},
-            {"kind": "cart", "n": [5, 4, 3], "phys": [5.0, 4.0, 3.0], "pert_seed": None, "only": "nodes"}]
+            {"kind": "cart", "n": [5, 4, 3], "phys": [5.0, 4.0, 3.0], "pert_seed": None, "only": "nodes"},
+            # 2-D grids tilted in 3-D (ambient_dimension = 3): every sub-grid must be mapped to the plane like the full grid; Mpfa only
+            {"kind": "cart", "n": [6, 4], "phys": [6.0, 4.0], "pert_seed": None, "tilt": [0.7, [1.0, 0.3, 0.2]], "only": "split", "splits": (4, 6),
+             "methods": ("mpfa",)},
+            {"kind": "tri", "n": [5, 4], "phys": [5.0, 4.0], "pert_seed": None, "tilt": [0.7, [1.0, 0.3, 0.2]], "only": "split", "splits": (3,),
+             "methods": ("mpfa",)}]
     return out
 
 
 def _gname(spec):
-    return f"{spec['kind']}{'x'.join(map(str, spec['n']))}{'p' if spec.get('pert_seed') is not None else ''}"
+    return f"{spec['kind']}{'x'.join(map(str, spec['n']))}{'p' if spec.get('pert_seed') is not None else ''}{'-tilted' if spec.get('tilt') else ''}"
 
 
 def run(rep):
@@ -515,7 +526,7 @@ def run(rep):
             nb = g.get_all_boundary_faces().size
             bf = g.get_all_boundary_faces()
             small3d = quick and g.dim == 3
-            for method in METHODS:
+            for method in spec.get("methods", METHODS):
                 seed = rng.randrange(10 ** 6)
                 layout = "".join(rng.choice("dn") for _ in range(nb))
                 if "d" not in layout:
